@@ -605,18 +605,22 @@ Definition sk_logline_date : list ev :=
 
 Definition sk_sequence_search : list ev :=
   [Call "start_run";
+   Wr "ret";
    Rd "s_end";
    Rd "started";
    IfB;
+   Rd "ret";
    IfB;
    Rd "section_id";
    Call "results_remove";
    Call "def_reset";
    Else;
    Call "end_run";
+   Wr "ret";
    IfE;
    Else;
    IfE;
+   Rd "ret";
    IfB;
    Rd "started";
    IfB;
@@ -633,6 +637,7 @@ Definition sk_sequence_search : list ev :=
    Else;
    IfE;
    IfE;
+   Rd "ret";
    Call "results_add";
    Else;
    Rd "started";
@@ -640,7 +645,10 @@ Definition sk_sequence_search : list ev :=
    IfB;
    Rd "section_id";
    Call "body_run";
+   Wr "ret";
+   Rd "ret";
    IfB;
+   Rd "ret";
    Rd "s_body";
    Call "results_add";
    Else;
@@ -667,8 +675,11 @@ Definition sk_process_sequence_results : list ev :=
    Else;
    IfE;
    Call "end_run_empty";
+   Wr "ret";
+   Rd "ret";
    IfB;
    Rd "section_id";
+   Rd "ret";
    Rd "s_end";
    Call "results_add";
    Else;
